@@ -1,2 +1,3 @@
 import AgProofs.Props.C10
 import AgProofs.Props.C12
+import AgProofs.Props.C03
